@@ -119,7 +119,8 @@ impl Tag for MW {
     }
 }
 
-/// twelve more implementing types, so that a table can hold more than 16 distinct registrations
+/// sixty-four more implementing types, so that a table can hold far more than 16 (and more than 32
+/// and 64) distinct registrations
 pub struct MG<const N: usize>(pub u64);
 impl<const N: usize> Tag for MG<N> {
     fn tag(&self) -> u32 {
@@ -214,7 +215,9 @@ unsafe impl CastFrom<MG<8>> for dyn Tag2 {
     }
 }
 
-pub const NM: usize = 20;
+pub const NM: usize = 72;
+/// the extra const-generic types: indices 8 .. 8 + NEXTRA
+const NEXTRA: usize = 64;
 const NPLAIN: usize = 6;
 const WRONG: u8 = 6;
 const WRONG_Z: u8 = 7;
@@ -305,6 +308,214 @@ macro_rules! with_m {
                 type $T = MG<19>;
                 $body
             }
+            20 => {
+                type $T = MG<20>;
+                $body
+            }
+            21 => {
+                type $T = MG<21>;
+                $body
+            }
+            22 => {
+                type $T = MG<22>;
+                $body
+            }
+            23 => {
+                type $T = MG<23>;
+                $body
+            }
+            24 => {
+                type $T = MG<24>;
+                $body
+            }
+            25 => {
+                type $T = MG<25>;
+                $body
+            }
+            26 => {
+                type $T = MG<26>;
+                $body
+            }
+            27 => {
+                type $T = MG<27>;
+                $body
+            }
+            28 => {
+                type $T = MG<28>;
+                $body
+            }
+            29 => {
+                type $T = MG<29>;
+                $body
+            }
+            30 => {
+                type $T = MG<30>;
+                $body
+            }
+            31 => {
+                type $T = MG<31>;
+                $body
+            }
+            32 => {
+                type $T = MG<32>;
+                $body
+            }
+            33 => {
+                type $T = MG<33>;
+                $body
+            }
+            34 => {
+                type $T = MG<34>;
+                $body
+            }
+            35 => {
+                type $T = MG<35>;
+                $body
+            }
+            36 => {
+                type $T = MG<36>;
+                $body
+            }
+            37 => {
+                type $T = MG<37>;
+                $body
+            }
+            38 => {
+                type $T = MG<38>;
+                $body
+            }
+            39 => {
+                type $T = MG<39>;
+                $body
+            }
+            40 => {
+                type $T = MG<40>;
+                $body
+            }
+            41 => {
+                type $T = MG<41>;
+                $body
+            }
+            42 => {
+                type $T = MG<42>;
+                $body
+            }
+            43 => {
+                type $T = MG<43>;
+                $body
+            }
+            44 => {
+                type $T = MG<44>;
+                $body
+            }
+            45 => {
+                type $T = MG<45>;
+                $body
+            }
+            46 => {
+                type $T = MG<46>;
+                $body
+            }
+            47 => {
+                type $T = MG<47>;
+                $body
+            }
+            48 => {
+                type $T = MG<48>;
+                $body
+            }
+            49 => {
+                type $T = MG<49>;
+                $body
+            }
+            50 => {
+                type $T = MG<50>;
+                $body
+            }
+            51 => {
+                type $T = MG<51>;
+                $body
+            }
+            52 => {
+                type $T = MG<52>;
+                $body
+            }
+            53 => {
+                type $T = MG<53>;
+                $body
+            }
+            54 => {
+                type $T = MG<54>;
+                $body
+            }
+            55 => {
+                type $T = MG<55>;
+                $body
+            }
+            56 => {
+                type $T = MG<56>;
+                $body
+            }
+            57 => {
+                type $T = MG<57>;
+                $body
+            }
+            58 => {
+                type $T = MG<58>;
+                $body
+            }
+            59 => {
+                type $T = MG<59>;
+                $body
+            }
+            60 => {
+                type $T = MG<60>;
+                $body
+            }
+            61 => {
+                type $T = MG<61>;
+                $body
+            }
+            62 => {
+                type $T = MG<62>;
+                $body
+            }
+            63 => {
+                type $T = MG<63>;
+                $body
+            }
+            64 => {
+                type $T = MG<64>;
+                $body
+            }
+            65 => {
+                type $T = MG<65>;
+                $body
+            }
+            66 => {
+                type $T = MG<66>;
+                $body
+            }
+            67 => {
+                type $T = MG<67>;
+                $body
+            }
+            68 => {
+                type $T = MG<68>;
+                $body
+            }
+            69 => {
+                type $T = MG<69>;
+                $body
+            }
+            70 => {
+                type $T = MG<70>;
+                $body
+            }
+            71 => {
+                type $T = MG<71>;
+                $body
+            }
             _ => panic!("harness: meta type index out of range"),
         }
     };
@@ -370,6 +581,10 @@ pub enum MetaOp {
     Register { t: u8 },
     /// register a run of the extra types (reaches more than 16 distinct registrations)
     RegisterRange { start: u8, n: u8 },
+    /// register a run of up to all 64 extra types (tables with more than 32 / 64 distinct types)
+    RegisterWide { start: u8, n: u8 },
+    /// get (or get_mut) on a standalone value of every implementing type, registered or not
+    GetSweep { mutable: bool },
     WorldInsert { t: u8, d: u8 },
     WorldRemove { t: u8, d: u8 },
     /// get on a standalone value
@@ -426,7 +641,7 @@ impl Prop for C17 {
         "C17"
     }
     fn rule(&self) -> &'static str {
-        "histories (<= 40 steps) over register::<T_i>() with repeats / insert and remove of 7 implementing types (zero-sized, 1 byte, 8 bytes, 128 bytes, heap-owning, 64-byte aligned, and one whose CastFrom returns a different address) at dynamic ids 0 and 1 / get and get_mut on standalone values and on values in the world / full iter and iter_mut passes, also while a shared or exclusive guard on one resource is held; every type's methods read its own payload so a wrong vtable shows; oracle: reference list of types in first-registration order; get* is Some exactly for registered types and the object reports the value's own address and type tag; iteration yields exactly registered and present (dynamic id 0) types, once each, in first-registration order, with the stored value's address; iter panics exactly at a conflictingly borrowed element; any use that resolves the wrong-cast type panics with the CastFrom message; non-trivial = >= 1 repeated registration, >= 1 registered-but-absent type and >= 1 iteration; distinct = history hash"
+        "histories (<= 40 steps) over register::<T_i>() with repeats / insert and remove of 7 implementing types (zero-sized, 1 byte, 8 bytes, 128 bytes, heap-owning, 64-byte aligned, and one whose CastFrom returns a different address, a zero-sized one with the same defect, and 64 const-generic extras registered singly or in runs of up to 64, so that tables hold more than 32 and more than 64 distinct types) at dynamic ids 0 and 1 / sweeps of get or get_mut over a standalone value of every type / get and get_mut on standalone values and on values in the world / full iter and iter_mut passes, also while a shared or exclusive guard on one resource is held; every type's methods read its own payload so a wrong vtable shows; oracle: reference list of types in first-registration order; get* is Some exactly for registered types and the object reports the value's own address and type tag; iteration yields exactly registered and present (dynamic id 0) types, once each, in first-registration order, with the stored value's address; iter panics exactly at a conflictingly borrowed element; any use that resolves the wrong-cast type panics with the CastFrom message; non-trivial = >= 1 repeated registration, >= 1 registered-but-absent type and >= 1 iteration; distinct = history hash"
     }
     fn stream_len(&self) -> usize {
         150
@@ -450,6 +665,8 @@ impl Prop for C17 {
                 let k = src.pick(NPLAIN + 12);
                 if k < NPLAIN {
                     k as u8
+                } else if src.chance(3, 16) {
+                    (8 + src.pick(NEXTRA)) as u8
                 } else {
                     (k + 2) as u8
                 }
@@ -462,6 +679,15 @@ impl Prop for C17 {
                         MetaOp::RegisterRange {
                             start: src.pick(12) as u8,
                             n: 1 + src.pick(12) as u8,
+                        }
+                    } else if src.chance(5, 16) {
+                        MetaOp::RegisterWide {
+                            start: src.pick(NEXTRA) as u8,
+                            n: 1 + src.pick(NEXTRA) as u8,
+                        }
+                    } else if src.chance(5, 16) {
+                        MetaOp::GetSweep {
+                            mutable: src.chance(6, 16),
                         }
                     } else {
                         MetaOp::Register { t }
@@ -564,9 +790,10 @@ impl Prop for C17 {
                         order.push(t);
                     }
                 }
-                MetaOp::RegisterRange { start, n } => {
+                MetaOp::RegisterRange { start, n } | MetaOp::RegisterWide { start, n } => {
+                    let m = if matches!(op, MetaOp::RegisterWide { .. }) { NEXTRA as u8 } else { 12 };
                     for k in 0..n {
-                        let t = 8 + (start + k) % 12;
+                        let t = 8 + (start % m + k % m) % m;
                         with_m!(t, T, table.register::<T>());
                         if order.contains(&t) {
                             repeats += 1;
@@ -585,40 +812,51 @@ impl Prop for C17 {
                     });
                     present.remove(&(t, d));
                 }
-                MetaOp::Get { t } | MetaOp::GetMut { t } => {
-                    let mutable = matches!(op, MetaOp::GetMut { .. });
-                    let r = outcome(|| {
-                        with_m!(t, T, {
-                            let mut b: Box<T> = Box::new(T::mk());
-                            let own = &*b as *const T as usize;
-                            if mutable {
-                                let res: &mut dyn Resource = &mut *b;
-                                table.get_mut(res).map(|o| (o.tag(), o.addr(), own))
-                            } else {
-                                let res: &dyn Resource = &*b;
-                                table.get(res).map(|o| (o.tag(), o.addr(), own))
+                MetaOp::Get { .. } | MetaOp::GetMut { .. } | MetaOp::GetSweep { .. } => {
+                    let (ts, mutable): (Vec<u8>, bool) = match op {
+                        MetaOp::Get { t } => (vec![*t], false),
+                        MetaOp::GetMut { t } => (vec![*t], true),
+                        MetaOp::GetSweep { mutable } => ((0..NM as u8).collect(), *mutable),
+                        _ => unreachable!(),
+                    };
+                    if ts.len() > 1 {
+                        st.class("get_sweeps_over_all_types");
+                    }
+                    for t in ts {
+                        let r = outcome(|| {
+                            with_m!(t, T, {
+                                let mut b: Box<T> = Box::new(T::mk());
+                                let own = &*b as *const T as usize;
+                                if mutable {
+                                    let res: &mut dyn Resource = &mut *b;
+                                    table.get_mut(res).map(|o| (o.tag(), o.addr(), own))
+                                } else {
+                                    let res: &dyn Resource = &*b;
+                                    table.get(res).map(|o| (o.tag(), o.addr(), own))
+                                }
+                            })
+                        });
+                        let registered = order.contains(&t);
+                        match (registered, is_wrong(t), r) {
+                            (false, _, Ok(None)) => {}
+                            (true, true, Err(m)) if m.contains("CastFrom") => {}
+                            (true, false, Ok(Some((tag, addr, own)))) => {
+                                if tag != tag_of(t) || addr != own {
+                                    return Err(bad(format!(
+                                        "type {}: the trait object reports tag {} at address {:#x}; the value has tag {} at {:#x}",
+                                        t, tag, addr, tag_of(t), own
+                                    )));
+                                }
                             }
-                        })
-                    });
-                    let registered = order.contains(&t);
-                    match (registered, is_wrong(t), r) {
-                        (false, _, Ok(None)) => {}
-                        (true, true, Err(m)) if m.contains("CastFrom") => {}
-                        (true, false, Ok(Some((tag, addr, own)))) => {
-                            if tag != tag_of(t) || addr != own {
+                            (reg, _, r) => {
                                 return Err(bad(format!(
-                                    "the trait object reports tag {} at address {:#x}; the value has tag {} at {:#x}",
-                                    tag, addr, tag_of(t), own
-                                )));
+                                    "get{} on a value of type {} gave {:?} with registered={}",
+                                    if mutable { "_mut" } else { "" },
+                                    t,
+                                    r.map(|o| o.map(|x| (x.0, x.1 == x.2))),
+                                    reg
+                                )))
                             }
-                        }
-                        (reg, _, r) => {
-                            return Err(bad(format!(
-                                "get{} gave {:?} for a type with registered={}",
-                                if mutable { "_mut" } else { "" },
-                                r.map(|o| o.map(|x| (x.0, x.1 == x.2))),
-                                reg
-                            )))
                         }
                     }
                 }
@@ -801,8 +1039,8 @@ impl Prop for C17 {
                 absent_registered = true;
             }
             // nothing may stay borrowed
-            for t in 0..NM as u8 {
-                for d in 0..2u8 {
+            for &(t, d) in present.iter() {
+                {
                     let c = crate::res::probe_id(&world, mrid(t, d));
                     if c == crate::res::Cell::Shared || c == crate::res::Cell::Excl {
                         return Err(bad(format!(
@@ -815,6 +1053,12 @@ impl Prop for C17 {
         }
         if order.len() >= 16 {
             st.class("tables_with>=16_distinct_types");
+        }
+        if order.len() > 32 {
+            st.class("tables_with>32_distinct_types");
+        }
+        if order.len() > 64 {
+            st.class("tables_with>64_distinct_types");
         }
         st.class_n("repeated_registrations", repeats);
         st.class_n("iterations", iters);
@@ -922,7 +1166,7 @@ impl Prop for C17Conc {
     fn check(&self, case: &C17ConcCase, _lane: usize, st: &mut Stats) -> Result<(), Fail> {
         use std::sync::atomic::{AtomicBool, AtomicUsize, Ordering::SeqCst};
         use std::sync::Mutex;
-        let ok_t = |t: u8| t == 2 || (8..20).contains(&t);
+        let ok_t = |t: u8| t == 2 || (8..NM as u8).contains(&t);
         let mut table: MetaTable<dyn Tag> = MetaTable::new();
         let mut order: Vec<u8> = vec![];
         for &t in case.registered.iter().filter(|t| ok_t(**t)) {
